@@ -87,7 +87,10 @@ def check_grouped(res, src, dims, labels, layout, what, sig, attrs=True):
                     check(core.same_labels(m.values, ml), "member-labels", {"what": what, "member": m.name, "got": core.jsonable(m.values), "expected": ml}, sig)
             kinds = {core.label_kind(ml) for ml in mlabels if ml != [None]}
             if (kinds <= {"i", "f"} or kinds == {"s"}) and all(ml != [None] for ml in mlabels):
-                got = [tuple(core.canon_label(x) for x in t) for t in ax.values.tolist()]
+                raw = ax.values.tolist()
+                check(all(isinstance(t, (tuple, list)) and len(t) == len(members) for t in raw), "tuple-labels",
+                      {"what": what, "dim": names[i], "got": core.jsonable(raw), "expected": "one %d-tuple of member labels per entry" % len(members)}, sig)
+                got = [tuple(core.canon_label(x) for x in t) for t in raw]
                 exp = [tuple(core.canon_label(x) for x in t) for t in combo]
                 check(got == exp, "tuple-labels", {"what": what, "dim": names[i], "got": core.jsonable(got), "expected": core.jsonable(exp)}, sig)
         else:
